@@ -4,6 +4,7 @@ import (
 	"fmt"
 	"hash/fnv"
 	"sort"
+	"time"
 
 	"github.com/onheap/eval"
 )
@@ -36,6 +37,10 @@ type OpSpec struct {
 	Arity     int    `json:"arity"`
 	Stateless bool   `json:"stateless,omitempty"` // listed in Config.StatelessOperators
 	Mutates   bool   `json:"mutates,omitempty"`   // scribbles over its params slice before returning (an operator owns the slice it is handed)
+	// SlowFirst: the first call of this operator takes 300 ms of simulated time
+	// (a lookup table loaded lazily). Only engines with a simulated clock make
+	// it slow; its result is the same.
+	SlowFirst bool `json:"slow_first,omitempty"`
 }
 
 const (
@@ -397,6 +402,9 @@ type OpHost struct {
 	// yield — used where several tasks compile at once under the race
 	// detector and the harness must not share mutable state of its own.
 	Pure bool
+	// Sleep, when set, is how a SlowFirst operator spends simulated time.
+	Sleep    func(d time.Duration)
+	slowDone map[string]bool
 }
 
 func (h *OpHost) envOf(ctx *eval.Ctx) *Env {
@@ -413,6 +421,13 @@ func (h *OpHost) envOf(ctx *eval.Ctx) *Env {
 
 func (h *OpHost) Operator(name string) eval.Operator {
 	return func(ctx *eval.Ctx, params []eval.Value) (eval.Value, error) {
+		if sp := h.Specs[name]; sp != nil && sp.SlowFirst && h.Sleep != nil && !h.slowDone[name] {
+			if h.slowDone == nil {
+				h.slowDone = map[string]bool{}
+			}
+			h.slowDone[name] = true
+			h.Sleep(300 * time.Millisecond)
+		}
 		if ctx == nil && h.Pure {
 			spec := h.Specs[name]
 			args := make([]interface{}, len(params))
